@@ -130,5 +130,27 @@ def campaign(ctx):
         elif s in ("other", "hang"):
             ctx.label("other_exception")
     ctx.run_given(case_strategy(ctx.thorough), body, max_examples=ctx.n(1500, 20000))
+    # digit-count constraints x every spelling of a number (fixed point, exponent forms, floats whose repr has an exponent):
+    # a small grid enumerated completely on every run, independent of the seed
+    spellings = ["1", "9", "10", "99", "100", "999", "1000", "12345", "0.5", "0.05", "1.5", "1.50", "12.345", "99.99", "0.999", "1E+2", "1E+5", "12E+3", "1.5E+4",
+                 "1E-3", "15E-1", "1e16", "3e18", "1.5e20", "-1E+5", "-99.9", "0E+3", "0", "-0.0"]
+    idx = 0
+    for o in ("decimal", "float"):
+        for md in (1, 2, 3, 5):
+            for dp in (None, 0, 1, 2):
+                if dp is not None and dp > md:
+                    continue
+                c = {"max_digits": md}
+                if dp is not None:
+                    c["decimal_places"] = dp
+                for sp in spellings:
+                    for form in ("str", "typed"):
+                        idx += 1
+                        if idx % ctx.nshards != ctx.shard:
+                            continue
+                        v = sp if form == "str" else ({"t": "decimal", "v": sp} if o == "decimal" else {"t": "float", "v": repr(float(sp))})
+                        ctx.ev()
+                        body({"type": {"k": "con", "o": o, "c": c, "m": "annotate"}, "value": v, "options": {}, "entry": "call" if idx % 2 else "schema"})
+    ctx.extra["digits_grid_exhaustive"] = True
     from .c04 import fuzz_tier
     fuzz_tier(ctx, run_case, pid="C01")
